@@ -8,7 +8,7 @@ import pathlib
 
 MAX_INT = 10 ** 8
 ALPHABET = set(
-    "abcdefghijklmnopqrstuvwxyzABCDEFGHIJKLMNOPQRSTUVWXYZ0123456789 _-+./\\<>&\"'`:,()[]{}=#!?*|@;~^$"
+    "abcdefghijklmnopqrstuvwxyzABCDEFGHIJKLMNOPQRSTUVWXYZ0123456789 _-+./\\<>&\"'`:,()[]{}=#!?*|@;~^$\n"
 )
 TYPE_INDEX = {int: 1, float: 2, str: 3, list: 4, dict: 5, bool: 6, type(None): 7, pathlib.Path: 8, tuple: 9}
 INDEX_TYPE = {v: k for k, v in TYPE_INDEX.items()}
